@@ -15,7 +15,7 @@ the pattern down to the leaf (`seq a b`: `a` is child 0, `b` child 1; `exprCond 
 child: 0; `Cls.diff a b`: 0, 1), followed inside a `Cls.base` by `[i, 0]` for the lower and `[i, 1]` for
 the upper endpoint of the `i`-th range.  Distinct letters have distinct paths, so *every* way of
 re-casing any subset of the letters of the pattern — every occurrence on its own — is `recase e ch p`
-for some `ch` (`Lemmas/Recase.lean`, `recased_iff_recase`).
+for some `ch` (`Props/C20.lean`, `recased_iff_recase`).
 
 What leg F of C20 does in Go (`flipPattern` in harness/internal/legs/c20.go: literals; class members;
 both endpoints of a range together) is the special case in which the two bits of a range agree.
